@@ -93,3 +93,19 @@ package cache
 //@   loop 0 invariant !isnil(decoded)
 //@   loop 0 invariant forall k string :: in(k, decoded) ==> $visited[k] && in(k, found) && snappyOK(found[k]) && same(decoded[k], snappyDecoded(found[k]))
 //@   loop 0 invariant forall k string :: $visited[k] && snappyOK(found[k]) ==> in(k, decoded)
+//@
+//@ # ---- server placement: addresses are resolved from the server list in natural sort order ------------------
+//@ # (so that two clients given the same servers in any order agree, and appending a server that sorts last only
+//@ # appends an address). natSorted is uninterpreted: "in the order github.com/facette/natsort produces".
+//@ pure func natSorted(s []string) bool
+//@ assume func natsort.Sort(x)
+//@   modifies x
+//@   ensures natSorted(x) && len(x) == len(old(x))
+//@ assume func memcache.ResolveServers(servers)
+//@   modifies nothing
+//@   ensures r1 == nil ==> len(r0) == len(servers)
+//@ func MemcachedJumpHashSelector.SetServers
+//@   property C19
+//@   nowrite servers
+//@   at before@memcache.ResolveServers: assert natural_order: natSorted($a0) && len($a0) == len(servers)
+//@   ensures  count: result == nil ==> len(s.addrs) == len(servers)
